@@ -33,6 +33,41 @@ def check(run):
         else:
             s = [run.rng.randint(1, nk) * 1000 + i + 1 for i in range(n)]
             plans.append([dict(op=op, s=s, t=0, d=1000)])
+    # structured inputs (what adaptive sorts and hand-written searches special-case): sorted, reversed, a sorted head with a short
+    # unsorted tail (values below, inside and above the head), one displaced element, two runs, organ pipe, saw-tooth, all equal
+    def shapes(n):
+        base = [10 * (i + 1) for i in range(n)]
+        out = [list(base), base[::-1], [7] * n, base[: n // 2] + base[: n - n // 2], base[::2] + base[1::2][::-1],
+               [(i * 7) % 5 + 1 for i in range(n)]]
+        for tail in ([5], [n * 10 + 5], [55, n * 10 + 1000], [n * 10 + 1000, 55], [n * 5 + 5, 3, n * 10 + 7], [n * 10 + 9, n * 10 + 8, n * 10 + 7, 1]):
+            out.append(base[: max(0, n - len(tail))] + tail)
+        if n > 2:
+            i, j = run.rng.randrange(n), run.rng.randrange(n)
+            d = list(base)
+            d.insert(j, d.pop(i))
+            out.append(d)
+        return out
+    sizes = [3, 8, 9, 12, 13, 16, 17, 18, 20, 24, 33, 50, 65] + ([] if run.quick() else [100, 129, 200, 257, 300])
+    for n in sizes:
+        for sh in shapes(n):
+            for op in (SORTS if not run.quick() else ["Sort", run.rng.choice(SORTS[1:])]):
+                if op in ("Sort", "SortDesc"):
+                    plans.append([dict(op=op, s=sh, t=0, d=10)])
+                else:
+                    plans.append([dict(op=op, s=[(v % 1000) * 1000 + i + 1 for i, v in enumerate(sh)], t=0, d=1000)])
+    # searches: every target (present, absent between any two values, below, above) in ascending slices of every length up to a bound,
+    # without and with runs of equal values; larger lengths with the boundary targets and a seeded sample
+    for n in (range(0, 26) if run.quick() else range(0, 70)):
+        for vals in ([2 * (i + 1) for i in range(n)], [2 * (i // 3 + 1) for i in range(n)]):
+            for t in range(0, (vals[-1] if vals else 0) + 2):
+                for op in ("BinarySearch", "BinarySearchFunc"):
+                    plans.append([dict(op=op, s=vals, t=t, d=10)])
+    for n in ([33, 64, 65, 100, 129] if run.quick() else [33, 64, 65, 100, 127, 128, 129, 255, 256, 257, 500]):
+        vals = [2 * (i + 1) for i in range(n)]
+        ts = {0, 1, 2, 3, 2 * n - 1, 2 * n, 2 * n + 1, n, n + 1} | {run.rng.randint(0, 2 * n + 1) for _ in range(16 if run.quick() else 60)}
+        for t in sorted(ts):
+            for op in ("BinarySearch", "BinarySearchFunc"):
+                plans.append([dict(op=op, s=vals, t=t, d=10)])
     for j in range(20 if run.quick() else 300):
         n = run.rng.randint(0, 60)
         s = sorted(run.rng.randint(1, 30) for _ in range(n))
@@ -58,7 +93,9 @@ def check(run):
                    distinct_nontrivial=distinct_count(segs, lambda s: len(s[0]["s"]) > 1),
                    rule="one case per (variant, key sequence over {1,2,3} up to length %d with position tags) and per (ascending slice over "
                         "1..4 up to length %d, target 0..5) enumerated by TLC from SortSearch.tla, plus seeded inputs of length 7..120 "
-                        "(past Go's insertion-sort and stable-block thresholds); non-trivial = at least 2 elements" % (ml, msl))
+                        "(past Go's insertion-sort and stable-block thresholds), structured sort inputs (sorted, reversed, sorted head + short tail, "
+                        "two runs, organ pipe, saw-tooth, equal) at 13-18 sizes, and every target of every ascending slice up to length 25 / 69; "
+                        "non-trivial = at least 2 elements" % (ml, msl))
     run.cov["samples"] = [segs[50][0], segs[-1][0]]
     run.assumptions += ["element type int; *Func variants use a key-only less on key*d+tag", "NaN-free (ints)"]
     return finish(run, reexec=lambda rej: execute(run, [rej["plan"]])[0])
